@@ -397,6 +397,24 @@ class Gen:
 
     def val(self, depth=0):
         d = self.d
+        if depth < self.max_depth and d.chance(0.07):
+            # "twins": two alternatives of different kind that are spelled alike - a quoted string and a bare word (type / label), a
+            # quoted string and a number
+            words = [x for x in (self.V.get('str') or []) if re.fullmatch(r'[A-Za-z_][A-Za-z0-9_]*', x) and x.lower() not in BADW] + [
+                str(x) for x in (self.V.get('type') or [])[:4]] + [str(x) for x in (self.V.get('label') or [])[:4]]
+            nums = [x for x in (self.V.get('int') or []) if 0 <= x < 100000][:6]
+            if nums and (not words or d.chance(0.4)):
+                n = d.choice(nums)
+                pair = [['int', n], ['str', str(n)]]
+            elif words:
+                w = d.choice(words)
+                pair = [['word', w], ['str', w]]
+            else:
+                pair = None
+            if pair:
+                if d.chance(0.5):
+                    pair.reverse()
+                return ['list', pair, []]
         if depth < self.max_depth and d.chance(0.15):
             return self.lst(self.val, depth)
         k = d.int(0, 4)
@@ -446,6 +464,9 @@ class Gen:
         if k == 0:
             return ['star']
         conn = self.text('conn', ['A', 'B', 'Z']) if d.chance(0.25) else None
+        if conn is not None and d.chance(0.15):
+            # an exclusion in the connection part: every connection but one
+            conn = ['list', [['id', '*']], [['id', d.choice((self.V.get('conn') or []) + ['A', 'B'])]]]
         if k < 7:
             return ['bare', conn, self.obj()]
         obj = self.obj() if d.chance(0.6) else None
